@@ -6,6 +6,10 @@ mod fam;
 mod mon_adv;
 mod mon_alias;
 mod mon_ctor;
+mod mon_pair;
+mod mon_pure;
+mod mon_serde;
+mod mon_single;
 mod mon_tree;
 mod rng;
 mod subject;
@@ -42,7 +46,12 @@ fn main() {
         "adv" => mon_adv::run(&job),
         "replay-adv" => mon_adv::replay(&job),
         "ctor" => mon_ctor::run(&job),
+        "c07" => mon_pair::run(&job),
+        "c14" => mon_pure::run(&job),
+        "c15" => mon_serde::run(&job),
         "c08" => mon_alias::run(&job),
+        "sweepdump" => mon_single::sweepdump(&job),
+        "bisect" => mon_single::bisect(&job),
         "c09" => mon_tree::run_c09(&job),
         "c10" => mon_tree::run_c10(&job),
         "c10-recount" => mon_tree::run_c10_recount(&job),
